@@ -83,6 +83,8 @@ pub fn constructors() -> Vec<Cons> {
     Cons { name: "range-cc", arity: 0, build: |_| T::Range(true, Box::new(nm("a")), Box::new(nm("b")), true) },
     Cons { name: "range-oo", arity: 0, build: |_| T::Range(false, Box::new(num(1)), Box::new(nm("b")), false) },
     Cons { name: "range-oc", arity: 0, build: |_| T::Range(false, Box::new(nm("a")), Box::new(num(2)), true) },
+    Cons { name: "unary-lt", arity: 0, build: |_| T::Unary(UOp::Lt, Box::new(nm("a"))) },
+    Cons { name: "unary-ge", arity: 0, build: |_| T::Unary(UOp::Ge, Box::new(num(1))) },
     Cons { name: "empty-list", arity: 0, build: |_| T::List(vec![]) },
     Cons { name: "empty-context", arity: 0, build: |_| T::Ctx(vec![]) },
   ]
@@ -131,8 +133,8 @@ pub fn depth2_trees() -> Vec<(String, T)> {
   out
 }
 
-/// Depth-3 spines: every ordered triple of constructors nested along the first or the last slot.
-pub fn depth3_spines(all: bool) -> Vec<(String, T)> {
+/// Depth-3 spines: every ordered triple of constructors nested along every slot of the outer and of the middle one.
+pub fn depth3_spines(_all: bool) -> Vec<(String, T)> {
   let cons = constructors();
   let lv = leaves();
   let mut out = vec![];
@@ -140,19 +142,103 @@ pub fn depth3_spines(all: bool) -> Vec<(String, T)> {
   for o in &pick {
     for m in &pick {
       for i in &cons {
-        for side in 0..2 {
-          let iops: Vec<T> = (0..i.arity).map(|k| lv[k % 3].clone()).collect();
-          let it = (i.build)(&iops);
-          let mslot = if side == 0 { 0 } else { m.arity - 1 };
+        let iops: Vec<T> = (0..i.arity).map(|k| lv[k % 3].clone()).collect();
+        let it = (i.build)(&iops);
+        for mslot in 0..m.arity {
           let mut mops: Vec<T> = (0..m.arity).map(|k| lv[(k + 1) % 3].clone()).collect();
-          mops[mslot] = it;
+          mops[mslot] = it.clone();
           let mt = (m.build)(&mops);
-          let oslot = if side == 0 { 0 } else { o.arity - 1 };
-          let mut oops: Vec<T> = (0..o.arity).map(|k| lv[(k + 2) % 3].clone()).collect();
-          oops[oslot] = mt;
-          out.push((format!("{}<{}<{}/{}", o.name, m.name, i.name, if side == 0 { "first" } else { "last" }), (o.build)(&oops)));
-          if !all {
-            break;
+          for oslot in 0..o.arity {
+            let mut oops: Vec<T> = (0..o.arity).map(|k| lv[(k + 2) % 3].clone()).collect();
+            oops[oslot] = mt.clone();
+            out.push((format!("{}[{}]<{}[{}]<{}", o.name, oslot, m.name, mslot, i.name), (o.build)(&oops)));
+          }
+        }
+      }
+    }
+  }
+  out
+}
+
+/// Literal leaves: every constructor with each literal spelling in each single slot (names elsewhere) and in all slots.
+pub fn literal_leaf_trees() -> Vec<(String, T)> {
+  let cons = constructors();
+  let lv = leaves();
+  let lits: Vec<(&str, T)> = vec![
+    ("int", T::Num("1".into(), String::new())),
+    ("decimal", T::Num("1".into(), "5".into())),
+    ("point-first", T::Num(String::new(), "5".into())),
+    ("leading-zeros", T::Num("007".into(), "50".into())),
+    ("string", T::Str("s t".into())),
+    ("boolean", T::Bool(true)),
+    ("null", T::Null),
+    ("at", T::At("2021-01-02".into())),
+  ];
+  let mut out = vec![];
+  for c in cons.iter().filter(|c| c.arity > 0) {
+    for (ln, lit) in &lits {
+      for slot in 0..=c.arity {
+        let mut ops: Vec<T> = (0..c.arity).map(|k| lv[k % 3].clone()).collect();
+        if slot == c.arity {
+          if c.arity == 1 {
+            continue;
+          }
+          ops = (0..c.arity).map(|_| lit.clone()).collect();
+        } else {
+          ops[slot] = lit.clone();
+        }
+        out.push((format!("{}[{}]<-literal:{}", c.name, if slot == c.arity { "all".to_string() } else { slot.to_string() }, ln), (c.build)(&ops)));
+      }
+    }
+  }
+  out
+}
+
+/// Sibling pairs: every outer constructor with two of its slots filled by every ordered pair of inner constructors
+/// (both operands of a binary operator are operators themselves, both branches of an if, two arguments ...).
+pub fn sibling_pairs() -> Vec<(String, T)> {
+  let cons = constructors();
+  let lv = leaves();
+  let mut out = vec![];
+  let inner: Vec<T> = cons.iter().map(|i| (i.build)(&(0..i.arity).map(|k| lv[k % 3].clone()).collect::<Vec<T>>())).collect();
+  for o in cons.iter().filter(|c| c.arity >= 2) {
+    for s1 in 0..o.arity {
+      for s2 in s1 + 1..o.arity {
+        for (n1, i1) in inner.iter().enumerate() {
+          for (n2, i2) in inner.iter().enumerate() {
+            let mut ops: Vec<T> = (0..o.arity).map(|k| lv[(k + 1) % 3].clone()).collect();
+            ops[s1] = i1.clone();
+            ops[s2] = i2.clone();
+            out.push((format!("{}[{}]<-{},[{}]<-{}", o.name, s1, cons[n1].name, s2, cons[n2].name), (o.build)(&ops)));
+          }
+        }
+      }
+    }
+  }
+  out
+}
+
+/// Depth-4 spines (thorough): every ordered quadruple of constructors nested along the first or along the last slot.
+pub fn depth4_spines() -> Vec<(String, T)> {
+  let cons = constructors();
+  let lv = leaves();
+  let mut out = vec![];
+  let pick: Vec<&Cons> = cons.iter().filter(|c| c.arity > 0).collect();
+  let put = |c: &Cons, side: usize, inner: &T, shift: usize| -> T {
+    let slot = if side == 0 { 0 } else { c.arity - 1 };
+    let mut ops: Vec<T> = (0..c.arity).map(|k| lv[(k + shift) % 3].clone()).collect();
+    ops[slot] = inner.clone();
+    (c.build)(&ops)
+  };
+  for i in &cons {
+    let it = (i.build)(&(0..i.arity).map(|k| lv[k % 3].clone()).collect::<Vec<T>>());
+    for side in 0..2 {
+      for m2 in &pick {
+        let t2 = put(m2, side, &it, 1);
+        for m1 in &pick {
+          let t1 = put(m1, side, &t2, 2);
+          for o in &pick {
+            out.push((format!("{}<{}<{}<{}/{}", o.name, m1.name, m2.name, i.name, if side == 0 { "first" } else { "last" }), put(o, side, &t1, 0)));
           }
         }
       }
@@ -233,13 +319,21 @@ fn diagnose(text: &str, layout: Layout, t: &T) -> Option<&'static str> {
     return Some("between:and-token-inside-lower-bound");
   }
   // (2) a type name after `instance of` absorbs following name-like tokens (words, + - * / . ')
-  if let Some(rest) = after_instance_type(&normalised) {
-    let r = rest.trim_start();
-    if let Some(ch) = r.chars().next() {
-      if ch.is_alphabetic() || matches!(ch, '+' | '-' | '*' | '/' | '.' | '\'' ) {
-        return Some("instance-of:type-name-absorbs-following-name-tokens");
+  {
+    let mut rest_all: &str = &normalised;
+    while let Some((rest, consumed)) = after_instance_type(rest_all) {
+      let r = rest.trim_start();
+      if let Some(ch) = r.chars().next() {
+        if ch.is_alphabetic() || matches!(ch, '+' | '-' | '*' | '/' | '.' | '\'') {
+          return Some("instance-of:type-name-absorbs-following-name-tokens");
+        }
       }
+      rest_all = &rest_all[consumed..];
     }
+  }
+  // (5) true / false / null directly followed by `(` is read as a function name (with white space between, as the literal)
+  if matches!(layout, Layout::Compact) && callee_is_keyword_literal(t) {
+    return Some("call:keyword-literal-directly-before-parenthesis-read-as-name");
   }
   None
 }
@@ -274,20 +368,34 @@ fn contains_function(t: &T) -> bool {
   found
 }
 
-/// text after the first `instance of <simple type name>`
-fn after_instance_type(text: &str) -> Option<&str> {
+/// text after the first `instance of <simple type name>` and the offset just past the word `instance`
+fn after_instance_type(text: &str) -> Option<(&str, usize)> {
   let idx = text.find("instance")?;
-  let rest = &text[idx + "instance".len()..];
-  let of = rest.find("of")?;
+  let consumed = idx + "instance".len();
+  let rest = &text[consumed..];
+  let of = match rest.find("of") {
+    Some(o) => o,
+    None => return Some(("", consumed)),
+  };
   let rest = rest[of + 2..].trim_start();
   let rest = rest.strip_prefix("/* c 1 + ( */").map(|r| r.trim_start()).unwrap_or(rest);
   let rest = rest.strip_prefix("// c ) \"\n").map(|r| r.trim_start()).unwrap_or(rest);
   for ty in ["number", "list<string>"] {
     if let Some(r) = rest.strip_prefix(ty) {
-      return Some(r);
+      return Some((r, consumed));
     }
   }
-  None
+  Some(("", consumed))
+}
+
+fn callee_is_keyword_literal(t: &T) -> bool {
+  let mut found = matches!(t, T::Call(f, _) | T::CallNamed(f, _) if matches!(**f, T::Bool(_) | T::Null));
+  t.for_children(&mut |c| {
+    if callee_is_keyword_literal(c) {
+      found = true
+    }
+  });
+  found
 }
 
 fn check_tree(run: &Run, label: &str, t: &T, names: &BTreeSet<String>, counters: &Counters) {
@@ -374,6 +482,18 @@ pub fn run() {
   let spines = depth3_spines(true);
   let d3 = spines.len();
   trees.extend(spines);
+  let sib = sibling_pairs();
+  let n_sib = sib.len();
+  trees.extend(sib);
+  let lt = literal_leaf_trees();
+  let n_lit = lt.len();
+  trees.extend(lt);
+  let mut d4 = 0usize;
+  if run.thorough() {
+    let s4 = depth4_spines();
+    d4 = s4.len();
+    trees.extend(s4);
+  }
   trees.par_iter().for_each(|(label, t)| check_tree(&run, label, t, &names, &counters));
   for (label, t) in trees.iter().step_by(trees.len() / 8 + 1) {
     run.sample(json!({"label": label, "minimal": render(t, Mode::Minimal, Layout::Spaced), "full": render(t, Mode::Full, Layout::Spaced)}));
@@ -414,6 +534,56 @@ pub fn run() {
         ),
       }
     }
+  }
+
+  // 2b. the unary tests entry point over generated trees: a single test, every ordered pair of depth-1 trees as a list
+  //     of two tests, and the negated list
+  {
+    let d2t = depth2_trees();
+    let layouts = [Layout::Spaced, Layout::Compact, Layout::NewlinesTabs, Layout::BlockComments, Layout::EveryWhiteSpace];
+    let check_ut = |key: String, text: String, expected: AstNode, t: Option<(&T, Layout)>| {
+      let scope = parse_scope_of(&names);
+      let r = std::panic::catch_unwind(std::panic::AssertUnwindSafe(|| parse_unary_tests(&scope, &text, false)));
+      let obs = match r {
+        Err(_) => "panic".to_string(),
+        Ok(Ok(node)) if node == expected => return,
+        Ok(Ok(node)) => format!("different tree {}", format!("{:?}", node).chars().take(300).collect::<String>()),
+        Ok(Err(e)) => format!("syntax error {}", e.to_string().chars().take(160).collect::<String>()),
+      };
+      let key = match t.and_then(|(t, layout)| diagnose(&text, layout, t)) {
+        Some(k) if obs != "panic" => k.to_string(),
+        _ => key,
+      };
+      run.violation(&key, &format!("parse_unary_tests(`{}`): {}", text, obs), json!({"engine":"c06","kind":"unary-tests","text":text,"expected":format!("{:?}",expected)}));
+    };
+    let n1: u64 = d2t
+      .par_iter()
+      .map(|(label, t)| {
+        let mut n = 0u64;
+        for mode in [Mode::Full, Mode::Minimal] {
+          for layout in layouts {
+            n += 2;
+            let text = render(t, mode, layout);
+            check_ut(format!("unary-tests:single:{}:{:?}", label, layout), text.clone(), AstNode::ExpressionList(vec![to_ast(t)]), Some((t, layout)));
+            check_ut(format!("unary-tests:negated:{}:{:?}", label, layout), format!("not({})", text), AstNode::NegatedList(vec![to_ast(t)]), Some((t, layout)));
+          }
+        }
+        n
+      })
+      .sum();
+    let d1: Vec<&(String, T)> = d2t.iter().filter(|(l, _)| !l.contains("<-")).collect();
+    let mut n2 = 0u64;
+    for (la, a) in &d1 {
+      for (lb, b) in &d1 {
+        for (sep, sn) in [(", ", "spaced"), (",", "compact"), (" ,\n", "newline")] {
+          n2 += 2;
+          let text = format!("{}{}{}", render(a, Mode::Minimal, Layout::Spaced), sep, render(b, Mode::Minimal, Layout::Spaced));
+          check_ut(format!("unary-tests:pair:{}:{}:{}", la, lb, sn), text.clone(), AstNode::ExpressionList(vec![to_ast(a), to_ast(b)]), None);
+          check_ut(format!("unary-tests:negated-pair:{}:{}:{}", la, lb, sn), format!("not({})", text), AstNode::NegatedList(vec![to_ast(a), to_ast(b)]), None);
+        }
+      }
+    }
+    ut_count += n1 + n2;
   }
 
   // 3. literal spellings: every escape form of every code point
@@ -529,16 +699,51 @@ pub fn run() {
     }
   }
 
+  // every numeral spelling over the digits 0, 1, 9: integer part of 0..3 digits, fraction of 0..3 digits
+  {
+    let digs = ['0', '1', '9'];
+    let mut parts = vec![String::new()];
+    for len in 1..=3 {
+      let mut cur = vec![String::new()];
+      for _ in 0..len {
+        cur = cur.iter().flat_map(|p| digs.iter().map(move |d| format!("{}{}", p, d))).collect();
+      }
+      parts.extend(cur);
+    }
+    for a in &parts {
+      for b in &parts {
+        if a.is_empty() && b.is_empty() {
+          continue;
+        }
+        let text = if b.is_empty() { a.clone() } else { format!("{}.{}", a, b) };
+        lit_count += 1;
+        let scope = dmntk_feel::Scope::default();
+        let want_a = if a.is_empty() { "0".to_string() } else { a.clone() };
+        match parse_expression(&scope, &text, false) {
+          Ok(AstNode::Numeric(x, y)) if x == want_a && y == *b => {}
+          other => run.violation(
+            &format!("numeral:{}", text),
+            &format!("numeral {} reads as {:?}", text, other.map(|n| format!("{:?}", n)).map_err(|e| e.to_string())),
+            json!({"engine":"c06","kind":"numeral","text":text}),
+          ),
+        }
+      }
+    }
+  }
+
   let parses = counters.parses.load(Ordering::Relaxed);
   run.set("states", json!(trees.len() as u64 + lit_count + ut_count));
   run.set("transitions", json!(parses + lit_count + ut_count));
   run.set("traces_validated_against_impl", json!(parses + lit_count + ut_count));
   run.set("evaluations", json!(parses + lit_count + ut_count));
   run.set("distinct_nontrivial", json!(distinct_texts.len()));
-  run.set("rule", json!("distinct minimal renderings of trees with at least one operator (depth-2: every constructor in every slot of every constructor; depth-3 spines); each is parsed in 2 parenthesisations x 6 layouts plus one text per needed parenthesis pair"));
+  run.set("rule", json!("distinct minimal renderings of trees with at least one operator (depth-2: every constructor in every slot of every constructor; depth-3: every ordered triple along every slot of the outer and the middle constructor; sibling pairs: two slots of one constructor filled by every ordered pair; thorough adds depth-4 spines along the first / last slot); each is parsed in 2 parenthesisations x 7 layouts plus one text per needed parenthesis pair"));
   run.set("exhaustive", json!(true));
   run.set("depth2_trees", json!(d2));
   run.set("depth3_spines", json!(d3));
+  run.set("sibling_pairs", json!(n_sib));
+  run.set("depth4_spines", json!(d4));
+  run.set("literal_leaf_trees", json!(n_lit));
   run.set("needed_pair_removals", json!(counters.needed.load(Ordering::Relaxed)));
   run.set("string_literal_cases", json!(lit_count));
   run.set("unary_tests_cases", json!(ut_count));
